@@ -126,6 +126,8 @@ def main():
     tail = []
     while entries and entries[-1]["k"] == "check":
         tail.insert(0, entries.pop())
+    if "--stats" in sys.argv:
+        tail = [dict(k="check", what="stats_all")]
     if not tail:
         tail = [dict(k="check", what="notes", where="dd"), dict(k="check", what="blame_tip", where="dd", complete=False, files=None, rule="C03")]
     entries = [e for e in entries if e["k"] != "check"]
